@@ -279,6 +279,7 @@ ERR_PATTERNS = [
     ('has no parent at level', 'orphan'),
     ('is not present in the keys at', 'missingChild'),
     ('has at least two parents', 'twoParents'),
+    ('expected to have a parent at level', 'badParentLevel'),
     ('lists a level more than once', 'dupLevel'),
     ('has no nodes at its top level', 'noNodes'),
     ('has no children', 'noChildren'),
